@@ -1090,6 +1090,12 @@ theorem refsIn_unmapped {T : ClassId → Bool} {a : List FieldSpec} (ha : RefsIn
   obtain ⟨g, hg, rfl⟩ := List.mem_map.mp hf
   exact ha g hg
 
+theorem refsIn_deopt {T : ClassId → Bool} {a : List FieldSpec} (ha : RefsIn T a) : RefsIn T (deopt a) := by
+  intro f hf
+  unfold deopt at hf
+  obtain ⟨g, hg, rfl⟩ := List.mem_map.mp hf
+  exact ha g hg
+
 theorem resolveField_kindRefs (cfg : Config) (reg : List (WKey × TypeId)) (f : FieldSpec) :
     kindRefs (resolveField cfg reg f).2.kind = kindRefs f.kind := by
   unfold resolveField
@@ -1133,7 +1139,7 @@ theorem refsIn_inheritInfo {T : ClassId → Bool} (pe : Option PInfo) (own : Lis
     | .omit c ns => exact refsIn_append (refsIn_unmapped (refsIn_filter _ hpc)) ho
     | .pick c ns => exact refsIn_append (refsIn_unmapped (refsIn_filter _ hpc)) ho
     | .partialOf c => exact refsIn_append (refsIn_unmapped hpc) ho
-    | .allRequired c => exact refsIn_append (refsIn_unmapped hpc) ho
+    | .allRequired c => exact refsIn_append (refsIn_deopt (refsIn_unmapped hpc)) ho
 
 theorem lookupParent_some {classes : List (ClassId × Entry)} {parent : Option Parent} {p : Parent} {pc : Core}
     {pr : List String} (h : lookupParent classes parent = some (some (p, pc, pr))) :
